@@ -39,6 +39,8 @@ LEVEL_TEXT = (
     "of the statement across options with and without a built-in default), plus invalid-value, const-flag and short-flag cases, "
     "plus files without a value at the option's key (2+1 drawn forms per option and round; separate shards run every file key of "
     "the tree x every intermediate position of the key x all 17 forms on one (quick) / six (thorough) commands declaring the key). "
+    "The quick plan also contains every (kind of command-line argument: flag pair / value list / literal choice / enum / single value) x "
+    "(source) pair that exists in the tree, preferably on an option whose field metadata is intact at run time. "
     "Held = held on those parses, for the dependency versions installed in this image."
 )
 LEVEL_NOTE = (
@@ -71,7 +73,12 @@ ASSUMPTIONS = [
     "string options restricted by a validator (--oem: names of installed ECU plugins) take the built-in default from every source "
     "(trivial for precedence); the rejected text doubles as the invalid value",
     "dict-typed options (init_kwargs, properties of the db virtual ECU) and list[tuple] options are not spelled by the generators",
-    "a command whose required options cannot be satisfied by any generated argv is reported as uncovered, not as a violation",
+    "a command whose required options cannot be satisfied by any generated argv is reported as uncovered, not as a violation; but if the "
+    "command line parses without the option under test (or only misses it), a refusal of the option's valid value is a violation even when "
+    "the message does not name the option, and a parser that raises anything but SystemExit is always a violation",
+    "no Literal-, enum- or list-typed option of the tree has a file key, and all Literal/enum options are Annotated-declared: their "
+    "environment path is exercised but ends in the recorded finding precedence/env-ignored/field-metadata-lost under the installed pydantic, "
+    "so defects confined to the literal/enum argument builders' handling of file/environment defaults cannot be observed in this image",
     "'the matching key of gallia.toml' is read as TOML reads a dotted key: section.name has a value iff every part of the section names "
     "a table and the last table holds name; a scalar, array or array of tables at an intermediate position means the file provides "
     "nothing for the option (it is neither a value nor an invalid value of that option)",
@@ -84,6 +91,39 @@ FULL_QUICK = 4
 OPTS_QUICK = 3
 SHADOW_SHARDS_QUICK = 4
 SHADOW_SHARDS_THOROUGH = 8
+
+
+PARSER_KINDS = ("bool", "container", "literal", "enum", "standard")
+# (parser kind, source) pairs that exist in the pinned tree.  No Literal/Enum/list-like option has a file key, and plain list[...] options
+# have no environment syntax (DESIGN 3a), so those pairs cannot be demanded.
+PARSER_PAIRS_EXERCISED = [(k, "cli") for k in PARSER_KINDS] + [(k, "env") for k in PARSER_KINDS] + [("bool", "file"), ("standard", "file")]
+# pairs where the source's value must have been seen to become the effective value in this run.  ("literal", "env") and ("enum", "env") are
+# exercised, but every Literal/Enum option of the tree is declared `x: Annotated[...] = Field(...)`: under the installed pydantic these lose
+# gallia's field metadata (recorded finding precedence/env-ignored/field-metadata-lost), so their environment value never reaches the parser.
+PARSER_PAIRS_EFFECTIVE = [(k, "cli") for k in PARSER_KINDS] + [("bool", "env"), ("standard", "env"), ("container", "env"), ("bool", "file"), ("standard", "file")]
+
+
+def parser_kind(spec: S.Spec) -> str:
+    """Which kind of command-line argument the option's declared type calls for (flag pair / value list / choice / single value)."""
+    if spec.kind == "bool":
+        return "bool"
+    if spec.kind in ("list", "dict", "Ranges", "Ranges2D"):
+        return "container"
+    if spec.kind in ("Literal", "AutoLiteral"):
+        return "literal"
+    if spec.kind in ("Enum", "EnumArg"):
+        return "enum"
+    return "standard"
+
+
+def option_sources(d: S.Decl) -> list[str]:
+    """The sources from which the option can take a value (positional arguments: command line only, by gallia's design)."""
+    out = ["cli"] if d.spec.cli_ok else []
+    if d.how == "config-field" and d.spec.env_ok and not d.positional:
+        out.append("env")
+    if d.file_key is not None and d.spec.cli_ok and not d.positional:
+        out.append("file")
+    return out
 
 
 # ------------------------------------------------------------------------------------------------
@@ -158,6 +198,22 @@ def shards(tier: str, seed: int) -> list[dict[str, Any]]:
                 if hit and plan[i] is not None:
                     plan[i].append(hit[0])  # type: ignore[union-attr]
                     break
+        # ... and every (kind of command-line argument, source) pair that exists in the tree, on an option whose field metadata is
+        # intact at run time if there is one (only there can the environment / the file get through)
+        from gallia.command.config import ConfigArgFieldInfo
+
+        for pk, src in PARSER_PAIRS_EXERCISED:
+            def fits(d: S.Decl, c: type, strict: bool) -> bool:
+                return parser_kind(d.spec) == pk and src in option_sources(d) and (not strict or isinstance(c.CONFIG_TYPE.model_fields[d.name], ConfigArgFieldInfo))  # noqa: B023
+
+            for strict in (True, False):
+                if any(fits(d, c, strict) and (plan[i] is None or d.name in plan[i]) for i, (_, c) in enumerate(cmds) for d in _options(c)):  # type: ignore[operator]
+                    break
+                hit = [(i, d.name) for i, (_, c) in enumerate(cmds) if plan[i] is not None for d in _options(c) if fits(d, c, strict)]
+                if hit:
+                    i, name = rng.choice(hit)
+                    plan[i].append(name)  # type: ignore[union-attr]
+                    break
         for i, (path, _) in enumerate(cmds):
             out.append({"mode": "command", "index": i, "path": list(path), "options": plan[i], "rounds": 1, "full_every": 25})
     out.append({"mode": "template"})
@@ -185,6 +241,11 @@ def required_reach(tier: str) -> dict[str, int]:
     need["shadow.decides.cli"] = 5
     need["shadow.decides.env"] = 5
     need["#shadow.honoured-key."] = 10
+    # every kind of command-line argument gallia builds (flag pair, value list, choice of literals, enum, single value) x the source that decides
+    for pk, src in PARSER_PAIRS_EXERCISED:
+        need[f"parserkind.{pk}.{src}.exercised"] = 1
+    for pk, src in PARSER_PAIRS_EFFECTIVE:
+        need[f"parserkind.{pk}.{src}.effective"] = 1
     return need
 
 
@@ -443,12 +504,9 @@ class OptionRun:
         self.vseed = vseed
         self.rounds = rounds
         self.rng = random.Random(vseed)
-        self.sources = ["cli"] if d.spec.cli_ok else []
         # positional arguments are not options: gallia deliberately takes them from the command line only
-        if d.how == "config-field" and d.spec.env_ok and not d.positional:
-            self.sources.append("env")
-        if d.file_key is not None and d.spec.cli_ok and not d.positional:
-            self.sources.append("file")
+        self.sources = option_sources(d)
+        self.pkind = parser_kind(d.spec)
         self.default = d.default if d.default_is_literal else self.rt.get_default(call_default_factory=True)
         self.restricted = False
         self.bad_text: str | None = None
@@ -552,7 +610,21 @@ class OptionRun:
             self.ctx.sample({"uncovered": self.h.cmdname, "option": d.name, "why": "a required option of the command cannot be spelled on the command line"}, force=True)
         if last is not None:
             out, argv = last
-            if out.kind == "exit" and names_source(out.text.split("error:")[-1], "cli", d) and "required" not in out.text.split("error:")[-1]:
+            if out.kind == "raise":
+                # no command line whatsoever may make the parser raise something else than SystemExit
+                self.ctx.violation(
+                    f"parser-raises/{type(out.exc).__name__}/{self.mech}", f"a valid command-line value makes the parser raise {type(out.exc).__name__}",
+                    self.witness({"cli"}, argv, {}, "", "<accepted>", out, "plan-search"),
+                )
+            elif out.kind == "exit" and names_source(out.text.split("error:")[-1], "cli", d) and "required" not in out.text.split("error:")[-1]:
+                self.ctx.violation(
+                    f"cli/valid-value-rejected/{self.tkey}", f"a valid command-line value is rejected ({d.spec.label})",
+                    self.witness({"cli"}, argv, {}, "", "<accepted>", out, "plan-search"),
+                )
+            elif (about := self.refusal_about_this_option()) is not None:
+                # the same command line without this option is fine (or only misses this option): the option's value is what is refused,
+                # even though the message does not name it (e.g. argparse's 'unrecognized arguments' for the 2nd item of a list)
+                out, argv = about
                 self.ctx.violation(
                     f"cli/valid-value-rejected/{self.tkey}", f"a valid command-line value is rejected ({d.spec.label})",
                     self.witness({"cli"}, argv, {}, "", "<accepted>", out, "plan-search"),
@@ -560,6 +632,46 @@ class OptionRun:
             else:
                 self.ctx.reach("uncovered.no-baseline")
                 self.ctx.sample({"uncovered": self.h.cmdname, "option": d.name, "why": out.brief()}, force=True)
+        return None
+
+    def refusal_about_this_option(self) -> tuple[Outcome, list[str]] | None:
+        """Is there a way to satisfy the other options such that the command line parses without this option (or fails only because
+        this option is missing), while the same command line plus a valid value of this option is refused - and not because the
+        resulting configuration breaks a cross-field rule of the command?  Then the refusal is about this option's value."""
+        d, h = self.d, self.h
+        others = [x for x in h.required_others(d.name)]
+        for n, plan in enumerate(h.candidate_plans(d.name)):
+            if n >= 30:
+                break
+            base = h.base_frags(plan, d.name, random.Random(self.vseed + "/plan"))
+            if base is None:
+                continue
+            out = h.parse(h.argv(base), {}, "", allow_full=False)
+            msg = out.text.split("error:")[-1]
+            only_misses_it = (
+                out.kind == "exit" and not d.has_default and "required" in msg and names_source(msg, "cli", d)
+                and not any(x.flag in msg.replace(d.flag, "") for x in others)
+            )
+            if out.kind != "ok" and not only_misses_it:
+                continue
+            if d.spec.kind == "bool":
+                probes = [S.gen_value(d.spec, random.Random(self.vseed), "cli", 1), S.gen_value(d.spec, random.Random(self.vseed), "cli", 0)]
+            elif self.restricted:
+                probes = [S.Val(self.default, [self.default], self.default, S.toml_str(self.default), "restricted domain: built-in default")]
+            else:
+                probes = [S.gen_value(d.spec, random.Random(f"{self.vseed}/cli"), "cli", 0, plan.scheme, avoid=[self.default] if d.has_default else [])]
+            for pv in probes:
+                if pv is None or pv.cli is None:
+                    continue
+                p, o = h.fragment(d, pv, plan.forms.get(d.name, "positional" if d.positional else "option"))
+                argv = h.argv(base + [(d.name, p, o)])
+                out = h.parse(argv, {}, "", allow_full=False)
+                if out.kind == "ok":
+                    continue
+                if out.kind == "exit" and self.violates_cross_field_rule({"cli"}, {"cli": pv}):
+                    self.ctx.reach("skipped.cross-field-constraint")
+                    continue
+                return out, argv
         return None
 
     def report_forms(self, plan: Plan, argv: list[str]) -> None:
@@ -610,6 +722,8 @@ class OptionRun:
         expected = self.default if w == "default" else vals[w].expected
         if expected_override is not S.UNSET:
             expected = expected_override
+        if w != "default":
+            ctx.reach(f"parserkind.{self.pkind}.{w}.exercised")
         if out.kind == "exit":
             msg = out.text.split("error:")[-1]
             if w in ("env", "file") and ("required" in msg or "expected" in msg):
@@ -620,6 +734,9 @@ class OptionRun:
         got = getattr(out.cfg, d.name, S.UNSET)
         if S.same(got, expected):
             ctx.reach("outcome.effective-value-ok")
+            rivals = [vals[s].expected for s in present if s != w] + ([self.default] if d.has_default else [])
+            if w != "default" and not self.restricted and all(not S.same(expected, r) for r in rivals):
+                ctx.reach(f"parserkind.{self.pkind}.{w}.effective")  # identifiably this source's value
             if w == "file":
                 self.file_honoured = True
             return
